@@ -51,6 +51,42 @@ def mucv_root(mod, fn, cond_ref, K):
         return None
     return (ac2['base'], sense)
 
+def mucv_edges(mod, fn, t, K):
+    """for a two-way branch t: list of (X, target block) such that on the edge to that block the record X is known to carry
+    NSYNC_WAITER_FLAG_MUCV - also when the test was cached in a local (`native = (flags & MUCV) != 0; ... if (native)`) or is one conjunct of
+    an && (the lowered phi / zext / second comparison are looked through)"""
+    from ..bounds import _expand
+    out = []
+    if t.op != 'br' or len(t.x['targets']) != 2 or not isinstance(t.ops[0], str) or t.ops[0] not in fn.imap:
+        return out
+    def facts(c, sense, depth):
+        r = mucv_root(mod, fn, c.id, K)
+        if r is not None:
+            return [(r[0], r[1] == sense)]
+        res = []
+        if depth > 4:
+            return res
+        if c.op == 'icmp' and c.x['pred'] in ('ne', 'eq') and IR.is_int(c.ops[1]) and IR.ival(c.ops[1]) == 0 and isinstance(c.ops[0], str):
+            inner = fn.imap.get(c.ops[0])
+            s2 = sense if c.x['pred'] == 'ne' else not sense
+            while inner is not None and inner.op in ('zext', 'sext', 'trunc') and isinstance(inner.ops[0], str):
+                inner = fn.imap.get(inner.ops[0])
+            if inner is not None and inner.ty == 'i1':
+                ex = []
+                _expand(fn, inner, s2, ex, 0)
+                for c2, se2 in ex:
+                    if c2 is not c:
+                        res += facts(c2, se2, depth + 1)
+        return res
+    for k, sense in ((0, True), (1, False)):
+        ex = []
+        _expand(fn, fn.imap[t.ops[0]], sense, ex, 0)
+        for c, se in ex:
+            for x, is_mucv in facts(c, se, 0):
+                if is_mucv:
+                    out.append((x, t.x['targets'][k]))
+    return out
+
 def check_dequeuers(ctx, mod, eng, runs, rep, rids=('C13.R4', 'C13.R5')):
     """R4: the dequeue function of every waitable kind passes, on every path, through the lock under which that kind's wakers touch a record
     (note_mu / counter_mu: lockset rules C08.R5, C10.R2; cv spinlock: R3 above).  The caller of nsync_wait_n discards its records right after the
@@ -211,10 +247,8 @@ def run(ctx, rep):
                 for b in fn.blocks:
                     t = b.term
                     if t.op == 'br' and len(t.x['targets']) == 2:
-                        root = mucv_root(mod, fn, t.ops[0], K)
-                        if root and util.strip_ptr(fn, root[0]) == x:
-                            tgt = t.x['targets'][0] if root[1] else t.x['targets'][1]
-                            if fn.bmap[tgt].preds == [b.id] and cfg.dominates(tgt, i.block.id):
+                        for rx, tgt in mucv_edges(mod, fn, t, K):
+                            if util.strip_ptr(fn, rx) == x and fn.bmap[tgt].preds == [b.id] and cfg.dominates(tgt, i.block.id):
                                 ok = True
                 rep.instance('C13.R3', '%s: element %s deferred to a post-spinlock wake list at %s' % (fn.name, fn.name_of(x), i.where()))
                 rep.oblig('C13.R3', ok)
